@@ -154,10 +154,10 @@ def random_program(rng, ntests):
                     if runs:
                         aborted.add(ph)
         if rng.random() < 0.4:
-            ex.append(["end", "o", nid, 0, bucket(), 0])       # the output keeps a copy of a leak failure (if there is one)
+            ex.append(["end", "o", nid, 1 if rng.random() < 0.12 else 0, bucket(), 0])       # the output keeps a copy of a leak failure (if there is one)
             nid += 1
         else:
-            ex.append(["end", "o", 0, 0, 0, 0])
+            ex.append(["end", "o", 0, 1 if rng.random() < 0.12 else 0, 0, 0])     # arg2: another plugin reports a failure before the leak verdict
     ex.append(["final", "o", 0, 0, 0, 0])
     return ex
 
